@@ -124,3 +124,67 @@ class PeerListener:
     @property
     def last(self):
         return self.peers[-1] if self.peers else None
+
+
+class Endpoint:
+    """A real HsmsProtocol on the real Tcp*Connection classes over the simulated network, with recorders."""
+
+    def __init__(self, sim, active, port=5000, label="ep", protocol_factory=None, **settings_kw):
+        import secsgem.hsms
+
+        self.sim = sim
+        self.active = active
+        self.addr = ("127.0.0.1", port)
+        self.label = label
+        self.settings = make_settings(active, port, **settings_kw)
+        self.proto = (protocol_factory or secsgem.hsms.HsmsProtocol)(self.settings)
+        self.connected_n = 0
+        self.disconnected_n = 0
+        self.communicating_n = 0
+        self.received: list = []  # (seq, system, stream, function, w, body)
+        self.calls: dict = {}
+        ev = self.proto.events
+        ev.connected += self._on_connected
+        ev.disconnected += self._on_disconnected
+        ev.communicating += self._on_communicating
+        ev.message_received += self._on_message
+
+    def _on_connected(self, _):
+        self.connected_n += 1
+        self.sim.log("ev-connected", self.label)
+
+    def _on_disconnected(self, _):
+        self.disconnected_n += 1
+        self.sim.log("ev-disconnected", self.label)
+
+    def _on_communicating(self, _):
+        self.communicating_n += 1
+        self.sim.log("ev-communicating", self.label)
+
+    def _on_message(self, data):
+        m = data["message"]
+        h = m.header
+        self.received.append((self.sim.k.seq, h.system, h.stream, h.function, bool(h.require_response),
+                              bytes(m.data)))
+        self.sim.log("ev-message", self.label, h.system, h.stream, h.function)
+
+    @property
+    def state(self):
+        return self.proto.connection_state.current.name
+
+    def call_async(self, name, fn):
+        """Run fn() on a simulated application thread; result recorded in self.calls[name]."""
+        rec = {"done": False, "result": None, "exc": None, "t0": self.sim.now, "t1": None}
+        self.calls[name] = rec
+
+        def body():
+            try:
+                rec["result"] = fn()
+            except Exception as exc:  # noqa: BLE001
+                rec["exc"] = repr(exc)
+            rec["done"] = True
+            rec["t1"] = self.sim.now
+            self.sim.log("call-done", self.label, name)
+
+        self.sim.spawn(body, f"app_{name}", role="app")
+        return rec
